@@ -39,6 +39,73 @@ from rdflib.xsd_datetime import Duration
 warnings.filterwarnings("ignore")
 logging.disable(logging.CRITICAL)
 
+import enum  # noqa: E402
+from rdflib import RDF  # noqa: E402
+from rdflib.term import _reset_bindings, bind  # noqa: E402
+
+
+# operands of SUBCLASSES of the supported Python types (surface audit, design.d/C09.md)
+class MyInt(int):
+    pass
+
+
+class Small(enum.IntEnum):
+    ONE = 1
+    TWO = 2
+    SEVEN = 7
+
+
+class MyDec(Decimal):
+    pass
+
+
+class MyStr(str):
+    pass
+
+
+class MyDate(date):
+    pass
+
+
+class MyDateTime(datetime):
+    pass
+
+
+class MyTime(time):
+    pass
+
+
+class MyDelta(timedelta):
+    pass
+
+
+def _sub(spec, v):
+    """the same value as an instance of a subclass, when the spec asks for it"""
+    if not spec.get("sub"):
+        return v
+    t = spec["t"]
+    if t == "int":
+        return Small(v) if v in (1, 2, 7) and spec["sub"] == "enum" else MyInt(v)
+    if t == "dec":
+        return MyDec(v)
+    if t == "str":
+        return MyStr(v)
+    if t == "date":
+        return MyDate(v.year, v.month, v.day)
+    if t == "datetime":
+        return MyDateTime(v.year, v.month, v.day, v.hour, v.minute, v.second, v.microsecond, tzinfo=v.tzinfo, fold=v.fold)
+    if t == "time":
+        return MyTime(v.hour, v.minute, v.second, v.microsecond, tzinfo=v.tzinfo, fold=v.fold)
+    if t == "td":
+        return MyDelta(days=v.days, seconds=v.seconds, microseconds=v.microseconds)
+    return v
+
+
+def dtarg(holder, dt):
+    """the datatype= argument: a URIRef, or (axis `dtstr`) the same IRI as a plain str"""
+    u = uri(dt)
+    return str(u) if (u is not None and holder.get("dtstr")) else u
+
 ID = "C09"
 LEAN_TARGETS = ["RV.C09.Props", "RV.C09.Audit"]
 AUDIT = "RV/C09/Audit.lean"
@@ -411,6 +478,10 @@ def in_fragment(dt, s):
 # ------------------------------------------------------------------ Python values
 
 def py_value(spec):
+    return _sub(spec, _py_value(spec))
+
+
+def _py_value(spec):
     t = spec["t"]
     if t == "int":
         return int(spec["v"])
@@ -490,6 +561,8 @@ def valid_for(dt, s):
     """lexical validity of `s` for datatype local name `dt` (None = plain literal: every string)"""
     if dt is None:
         return True
+    if dt in ("gYear", "gYearMonth"):      # not recognised datatypes (no converter), but the (date, gYear…) rules write them
+        return bool(re.fullmatch(r"-?(?:[1-9][0-9]{3,}|0[0-9]{3})" + ("-(?:0[1-9]|1[0-2])" if dt == "gYearMonth" else "") + f"(?:{_TZ})?", s))
     if dt not in ALL_DT or len(s) > 4000:   # (CPython refuses int() of more than 4300 digits)
         return False
     return xsd_parse(dt, s) is not None
@@ -509,7 +582,9 @@ def _mk(litspec):
         return Literal(s, lang=litspec["lang"])
     if litspec.get("bytes"):
         s = s.encode("utf-8")      # the lexical form offered as (UTF-8) bytes
-    return Literal(s, datatype=uri(litspec["dt"]), normalize=bool(litspec["norm"]))
+    elif litspec.get("strsub"):
+        s = MyStr(s)
+    return Literal(s, datatype=dtarg(litspec, litspec["dt"]), normalize=bool(litspec["norm"]))
 
 
 def _lit_modelled(litspec):
@@ -530,18 +605,35 @@ def run_lex(case):
     valid = px is not None
     stats["lex_valid" if valid else "lex_invalid"] = 1
     modelled = dt in MODELLED and in_fragment(dt, s)
-    arg = s.encode("utf-8", "surrogatepass") if case.get("bytes") else s   # same lexical form, offered as bytes
+    arg = s.encode("utf-8", "surrogatepass") if case.get("bytes") else (MyStr(s) if case.get("strsub") else s)
     if case.get("bytes"):
         stats["lex_as_bytes"] = 1
+    if case.get("strsub"):
+        stats["axis_lexical_str_subclass"] = 1
+    ua = dtarg(case, dt)
+    stats["axis_datatype_arg_" + ("str" if case.get("dtstr") else "URIRef")] = 1
+    mode = case.get("nmode", "d")
+    stats["axis_normalize_" + {"d": "None_flag_on", "t": "True", "o": "None_flag_off"}[mode]] = 1
+    reuse_bad = None
     try:
-        l0 = Literal(arg, datatype=u, normalize=False)
-        l1 = Literal(arg, datatype=u)
+        if mode == "o":
+            rdflib.NORMALIZE_LITERALS = False
+        l0 = Literal(arg, datatype=ua, normalize=False)
+        l1 = Literal(arg, datatype=ua, normalize=True) if mode == "t" else Literal(arg, datatype=ua)
         n1 = l0.normalize()
         n2 = n1.normalize()
         b1 = Literal(str(l1), datatype=u, normalize=False)
+        # the accessors re-used on one object: same answers, object unchanged
+        before = (str(l0), canon(l0.value), l0.ill_typed)
+        again = l0.normalize()
+        if (str(again), canon(again.value)) != (str(n1), canon(n1.value)) or canon(l0.toPython() if l0.value is not None else None) != canon(l0.value) \
+                or (str(l0), canon(l0.value), l0.ill_typed) != before:
+            reuse_bad = f"normalize()/toPython()/value called again on {l0!r} answer differently"
         raised = None
     except Exception as e:  # noqa: BLE001
         raised = type(e).__name__
+    finally:
+        rdflib.NORMALIZE_LITERALS = True
     if raised:
         obs = ["lex|raise"]
         stats["lex_raise"] = 1
@@ -570,12 +662,149 @@ def run_lex(case):
                 if not same_xsd_value(dt, xv, p2[1]):
                     viol.append(f"norm-value: {name} of {s!r}^^xsd:{dt} gives {str(x)!r}, a different value")
                     break
-            if str(n2) != str(n1) or str(Literal(str(l1), datatype=u)) != str(l1):
+            if str(n2) != str(n1) or (mode != "o" and str(Literal(str(l1), datatype=u)) != str(l1)):
                 viol.append(f"norm-idem: normalising the normalised form {str(n1)!r} of {s!r}^^xsd:{dt} changes it again")
+        if reuse_bad:
+            viol.append("reuse: " + reuse_bad)
     if not modelled:
         obs = ["unmodelled"]
         stats["unmodelled"] = 1
-    return {"obs": obs, "viol": viol, "nontrivial": valid, "key": f"lex:{dt}:{s}:{int(bool(case.get('bytes')))}", "stats": stats}
+    return {"obs": obs, "viol": viol, "nontrivial": valid, "key": f"lex:{dt}:{s}:{int(bool(case.get('bytes')))}:{mode}", "stats": stats}
+
+
+def value_in_space(sp, v, dt):
+    """is the Python value a member of the value space of xsd:`dt` (so that a valid lexical form exists)?"""
+    t = sp["t"]
+    if t == "int":
+        if dt in INT_BOUNDS:
+            lo, hi = INT_BOUNDS[dt]
+            return (lo is None or v >= lo) and (hi is None or v <= hi)
+        return dt == "decimal"
+    if t == "dec":
+        return dt == "decimal"
+    if t == "bool":
+        return dt == "boolean"
+    if t == "date":
+        return dt in ("date", "gYear", "gYearMonth")
+    if t == "datetime":
+        return dt == "dateTime"
+    if t == "time":
+        return dt == "time"
+    us = int(sp["us"]) if t in ("td", "dur") else 0
+    if t == "td":
+        return dt in ("duration", "dayTimeDuration") or (dt == "yearMonthDuration" and us == 0)
+    if t == "dur":
+        ym = sp["y"] != 0 or sp["m"] != 0
+        return dt == "duration" or (dt == "yearMonthDuration" and us == 0) or (dt == "dayTimeDuration" and not ym)
+    return False
+
+
+def run_pylang(case, v, stats):
+    """Literal(str, lang=tag): a language-tagged string (outside the Lean model)"""
+    sp = case["v"]
+    tag = sp["lang"]
+    stats["axis_lang_kw_" + ("empty" if tag == "" else "valid" if rdflib.term._is_valid_langtag(tag) else "invalid")] = 1
+    viol = []
+    try:
+        l = Literal(v, lang=tag)  # noqa: E741
+    except ValueError:
+        stats["lang_rejected"] = 1
+        return {"obs": ["unmodelled"], "viol": [] if (tag and not rdflib.term._is_valid_langtag(tag)) else
+                [f"py-raise: Literal({v!r}, lang={tag!r}) raises ValueError"], "nontrivial": False, "key": "pylang-rej", "stats": stats}
+    want = tag or None
+    if l.datatype is not None or l.language != want:
+        viol.append(f"py-datatype: Literal({v!r}, lang={tag!r}) has datatype {l.datatype} and language {l.language!r}")
+    if not py_equal(l.toPython(), v):
+        viol.append(f"py-back: Literal({v!r}, lang={tag!r}).toPython() is {l.toPython()!r}")
+    twin = Literal(str(v), lang=tag)
+    if l == twin and _eqres(l, twin)[0] is not True:
+        viol.append(f"eq-term: {l!r} == {twin!r} but .eq() gives {_eqres(l, twin)[1]}")
+    n1 = l.normalize()
+    if str(n1) != str(l) or str(n1.normalize()) != str(n1) or n1.language != l.language:
+        viol.append(f"norm-idem: normalize() of {l!r} gives {n1!r}")
+    return {"obs": ["unmodelled"], "viol": viol, "nontrivial": True, "key": f"pylang:{v}:{tag}", "stats": {**stats, "unmodelled": 1}}
+
+
+_XML_OK = ["", "text", "<a/>", "<a>t</a>", "a<b c='d'>e</b>f", "<a xmlns='urn:x'><b/></a>", "&amp;&lt;", "<a><!-- c --></a>", "é<x>漢</x>"]
+_XML_BAD = ["<a>", "</a>", "<a b></a>", "&", "<a></b>", "<"]
+
+
+def run_xml(case):
+    """rdf:XMLLiteral (DOM values: outside the Lean model; oracle = well-formedness of the fixed fragments)"""
+    s = case["s"]
+    ok = s in _XML_OK
+    viol, stats = [], {"xml": 1, "axis_datatype_XMLLiteral": 1, "xml_wellformed" if ok else "xml_malformed": 1, "unmodelled": 1}
+    try:
+        l = Literal(s, datatype=RDF.XMLLiteral)  # noqa: E741
+        n1 = l.normalize()
+        n2 = n1.normalize()
+        if ok:
+            if l.ill_typed is True or l.value is None:
+                viol.append(f"ill-typed: {s!r}^^rdf:XMLLiteral is well-formed but ill_typed={l.ill_typed}, value {l.value!r}")
+            if str(n2) != str(n1):
+                viol.append(f"norm-idem: normalize() twice of {s!r}^^rdf:XMLLiteral: {str(n1)!r} then {str(n2)!r}")
+            for x in (l, n1):
+                if _eqres(x, Literal(str(x), datatype=RDF.XMLLiteral))[0] is not True:
+                    viol.append(f"eq-term: {x!r} is not eq() to the literal built from its own lexical form")
+                    break
+            if ok and _eqres(l, n1)[0] is not True:
+                viol.append(f"norm-value: normalize() of {s!r}^^rdf:XMLLiteral is {str(n1)!r}, not eq() to it")
+    except Exception as e:  # noqa: BLE001
+        if ok:
+            viol.append(f"raise: {s!r}^^rdf:XMLLiteral raises {type(e).__name__}")
+    return {"obs": ["unmodelled"], "viol": viol, "nontrivial": ok, "key": "xml:" + s, "stats": stats}
+
+
+class Celsius:
+    """a user type registered with term.bind()"""
+
+    def __init__(self, text):
+        if not re.fullmatch(r"[+-]?[0-9]+", str(text)):
+            raise ValueError(text)
+        self.v = int(text)
+
+    def __eq__(self, other):
+        return isinstance(other, Celsius) and other.v == self.v
+
+    def __hash__(self):
+        return hash(self.v)
+
+    def __repr__(self):
+        return f"Celsius({self.v})"
+
+
+_EX_DT = URIRef("http://example.org/dt#celsius")
+
+
+def run_bind(case):
+    """a datatype registered by the user with term.bind(): recognised from then on (oracle only)"""
+    viol, stats = [], {"bind": 1, "axis_bind_specific" if case["specific"] else "axis_bind_generic": 1, "unmodelled": 1}
+    s = case["lex"]
+    ok = bool(re.fullmatch(r"[+-]?[0-9]+", s))
+    try:
+        bind(_EX_DT, Celsius, constructor=Celsius, lexicalizer=lambda c: str(c.v), datatype_specific=case["specific"])
+        l = Literal(s, datatype=_EX_DT)  # noqa: E741
+        n1 = l.normalize()
+        n2 = n1.normalize()
+        if ok:
+            if l.ill_typed is not False or l.value != Celsius(s):
+                viol.append(f"value: {s!r}^^ex:celsius (bound: constructor Celsius) has value {l.value!r}, ill_typed={l.ill_typed}")
+            if str(n2) != str(n1) or n1.value != l.value or str(Literal(str(l), datatype=_EX_DT)) != str(l):
+                viol.append(f"norm-idem: normalize() of {l!r}: {n1!r} then {n2!r}")
+            if _eqres(l, n1)[0] is not True:
+                viol.append(f"norm-value: {l!r} is not eq() to its normalize() {n1!r}")
+        elif l.ill_typed is not True or l.value is not None:
+            stats["bind_invalid_not_flagged"] = 1
+        obj = Celsius(str(case["n"]))
+        p = Literal(obj, datatype=_EX_DT) if case["specific"] else Literal(obj)
+        if p.datatype != _EX_DT or str(p) != str(case["n"]) or p.toPython() != obj \
+                or Literal(str(p), datatype=p.datatype).toPython() != obj:
+            viol.append(f"py-reparse: Literal({obj!r}) with the bound datatype is {p!r}, value {p.value!r}")
+    except Exception as e:  # noqa: BLE001
+        viol.append(f"raise: bound datatype, lexical {s!r}: {type(e).__name__}: {e}")
+    finally:
+        _reset_bindings()
+    return {"obs": ["unmodelled"], "viol": viol, "nontrivial": ok, "key": f"bind:{case['specific']}:{s}:{case['n']}", "stats": stats}
 
 
 def run_py(case):
@@ -583,11 +812,21 @@ def run_py(case):
     t = sp["t"]
     v = py_value(sp)
     viol, stats = [], {"py": 1, "py_" + t: 1}
-    want_dt = sp.get("dt") if t == "bytes" else DOCUMENTED[t]
+    if sp.get("sub"):
+        stats["axis_value_subclass_" + type(v).__name__] = 1
+    if sp.get("lang") is not None:
+        return run_pylang(case, v, stats)
+    want_dt = sp.get("dt") if (t == "bytes" or sp.get("dt")) else DOCUMENTED[t]
+    if t != "bytes" and sp.get("dt"):
+        stats["axis_value_with_datatype_kw"] = 1
+        stats["pyd_" + t + "_" + sp["dt"]] = 1
     try:
-        l = Literal(v, datatype=uri(sp["dt"])) if (t == "bytes" and sp.get("dt")) else Literal(v)  # noqa: E741
+        l = Literal(v, datatype=dtarg(sp, sp["dt"])) if sp.get("dt") else Literal(v)  # noqa: E741
+        recognised = l.datatype is None or local(l.datatype) in ALL_DT
         back = Literal(str(l), datatype=l.datatype, normalize=False)
         raised = None
+        if l.toPython() is not l.toPython() or (l.value is not None and l.toPython() is not l.value):
+            viol.append(f"reuse: toPython() / value of Literal({v!r}) answer differently when called again")
     except Exception as e:  # noqa: BLE001
         raised = type(e).__name__
     if raised:
@@ -604,6 +843,10 @@ def run_py(case):
             # documented: bytes <-> xsd:hexBinary / xsd:base64Binary (datatype-specific rules)
             if l.datatype is None or not lexok or not py_equal(l.toPython(), v) or not py_equal(back.toPython(), v):
                 viol.append(f"py-bytes: Literal({v!r}, datatype={sp.get('dt')}) is {str(l)!r}^^{dtl} with value {l.value!r}")
+        elif sp.get("dt") and not value_in_space(sp, v, sp["dt"]):
+            stats["pyd_value_outside_value_space"] = 1     # no valid lexical form exists: nothing is demanded
+            if (None if l.datatype is None else dtl) != want_dt:
+                viol.append(f"py-datatype: Literal({v!r}, datatype={want_dt}) has datatype {dtl}")
         else:
             if (None if l.datatype is None else dtl) != want_dt:
                 viol.append(f"py-datatype: Literal({v!r}) has datatype {dtl}, documented {want_dt}")
@@ -611,9 +854,9 @@ def run_py(case):
                 viol.append(f"py-lexical: Literal({v!r}) has lexical form {str(l)!r}, not valid for xsd:{dtl}")
             if not py_equal(l.toPython(), v):
                 viol.append(f"py-back: Literal({v!r}).toPython() is {l.toPython()!r}")
-            if not py_equal(back.toPython(), v):
+            if recognised and not py_equal(back.toPython(), v):
                 viol.append(f"py-reparse: {str(l)!r}^^{dtl} (made from {v!r}) reads back as {back.toPython()!r}")
-    if not py_modelled(sp):
+    if not py_modelled(sp) or (sp.get("dt") and sp["dt"] not in MODELLED):
         obs = ["unmodelled"]
         stats["unmodelled"] = 1
     return {"obs": obs, "viol": viol, "nontrivial": True, "key": "py:" + repr(sorted(sp.items(), key=str)), "stats": stats}
@@ -640,8 +883,16 @@ def run_eq(case):
         res = "1" if r is True else "0" if r is False else "other"
     except TypeError:
         r, res = None, "TypeError"
+    r2, res2 = _eqres(b, a)            # the other operand order
+    try:
+        nq = a.neq(b)
+        nres = "1" if nq is True else "0" if nq is False else "other"
+    except TypeError:
+        nq, nres = None, "TypeError"
+    stats["axis_eq_both_orders"] = 1
+    stats["axis_neq"] = 1
     # term equality depends on how normal forms are spelled: compared only in spelling mode
-    obs = [f"eq|{int(term) if SPELL else '-'}|{res}"]
+    obs = [f"eq|{int(term) if SPELL else '-'}|{res}|{res2}|{nres}"]
     da, db = (None if x.datatype is None else local(x.datatype) for x in (a, b))
     comparable = (_family(da) == _family(db) and a.value is not None and b.value is not None
                   and a.ill_typed is not True and b.ill_typed is not True)
@@ -658,6 +909,12 @@ def run_eq(case):
             want = None
         if want is not None and r is not want:
             viol.append(f"eq-value: {a!r}.eq({b!r}) is {res} but the mapped values compare {want}")
+        elif want is not None and r2 is not want:
+            viol.append(f"eq-value: {b!r}.eq({a!r}) (other operand order) is {res2} but the mapped values compare {want}")
+    if term and r is True and r2 is not True:
+        viol.append(f"eq-term: {b!r} == {a!r} but .eq() in that operand order gives {res2}")
+    if isinstance(r, bool) and nq is not (not r):
+        viol.append(f"neq: {a!r}.eq({b!r}) is {res} but .neq() is {nres}")
     if not (_lit_modelled(case["a"]) and _lit_modelled(case["b"])):
         obs = ["unmodelled"]
         stats["unmodelled"] = 1
@@ -788,15 +1045,15 @@ def pyspec_of(v):
 
 def _eqpy_domain(dt, v):
     """the Python objects Literal.eq documents for a literal of datatype `dt` (None = plain)"""
-    if type(v) is str:
+    if isinstance(v, str):
         return dt is None or dt == "string"
-    if type(v) is bool:
+    if isinstance(v, bool):
         return dt == "boolean"
-    if type(v) in (int, float) or isinstance(v, Decimal):
+    if isinstance(v, (int, float, Decimal)):
         return dt in NUMERIC
-    if type(v) in (date, time, datetime):
+    if isinstance(v, (date, time)):
         return dt in DATEY
-    if type(v) in (timedelta, Duration):
+    if isinstance(v, (timedelta, Duration)):
         return dt in DURS
     return False
 
@@ -816,7 +1073,14 @@ def run_eqpy(case):
         res = "1" if r is True else "0" if r is False else "NotImplemented" if r is NotImplemented else "other"
     except Exception as e:  # noqa: BLE001
         r, res = None, "raise:" + type(e).__name__
-    obs = [f"eqpy|{res}"]
+    try:
+        nq = a.neq(v) if isinstance(r, bool) else None
+    except Exception:  # noqa: BLE001
+        nq = "raise"
+    obs = [f"eqpy|{res}|{'-' if nq is None else int(nq) if isinstance(nq, bool) else nq}"]
+    if isinstance(r, bool) and nq is not (not r):
+        viol.append(f"neq: {a!r}.eq({v!r}) is {res} but .neq() is {nq!r}")
+    stats["axis_eqpy_operand_" + type(v).__name__] = 1
     dt = None if a.datatype is None else local(a.datatype)
     indom = (_eqpy_domain(dt, v) and a.language is None and a.value is not None and a.ill_typed is not True)
     stats["eqpy_in_domain"] = int(indom)
@@ -839,6 +1103,10 @@ def run_impl(case):
     k = case["kind"]
     if k == "eqpy":
         return run_eqpy(case)
+    if k == "xml":
+        return run_xml(case)
+    if k == "bind":
+        return run_bind(case)
     if k == "lex":
         return run_lex(case)
     if k == "py":
@@ -860,14 +1128,19 @@ def _lit_words(litspec):
 def model_lines(case):
     pre = ["spell 1"] if SPELL else ["spell 0"]
     k = case["kind"]
+    if k in ("xml", "bind"):
+        return pre + ["skip"]
     if k == "lex":
         if case["dt"] not in MODELLED:
             return pre + ["skip"]
-        return pre + [f"lex {case['dt']} " + cps_str("".join(chr(c) for c in case["cps"]))]
+        return pre + [f"lex {case['dt']} " + cps_str("".join(chr(c) for c in case["cps"])) + " " + case.get("nmode", "d")]
     if k == "py":
-        if not py_modelled(case["v"]):
+        sp = case["v"]
+        if not py_modelled(sp) or sp.get("lang") is not None or (sp.get("dt") and sp["dt"] not in MODELLED):
             return pre + ["skip"]
-        return pre + ["py " + py_model_words(case["v"])]
+        if sp.get("dt"):
+            return pre + [f"pyd {sp['dt']} " + py_model_words(sp)]
+        return pre + ["py " + py_model_words(sp)]
     if k == "eqpy":
         if not (_lit_modelled(case["a"]) and py_modelled(case["v"])) or case["v"]["t"] == "float":
             return pre + ["skip"]
@@ -1320,11 +1593,49 @@ def gen_case(rng, tier, i):
         # "1e9999999"^^xsd:decimal (not a valid form) makes rdflib's normalisation format gigabytes of zeros
         s = re.sub(r"([eE][+-]?[0-9]{3})[0-9]+", r"\1", s)
         c = {"kind": "lex", "dt": dt, "cps": [ord(c) for c in s], "intent": intent}
+        rare = 2.0 if tier == "thorough" else 1.0          # the low-probability axes get a larger share in thorough
         if rng.random() < 0.25 and not any(0xD800 <= ord(ch) <= 0xDFFF for ch in s):
             c["bytes"] = True
+        elif rng.random() < 0.04 * rare:
+            c["strsub"] = True
+        if rng.random() < 0.12 * rare:
+            c["dtstr"] = True
+        q = rng.random()
+        if q < 0.1 * rare:
+            c["nmode"] = "t"
+        elif q < 0.2 * rare:
+            c["nmode"] = "o"
         return c
     if r < 0.83:
-        return {"kind": "py", "v": gen_pyspec(rng)}
+        rare = 2.0 if tier == "thorough" else 1.0
+        sp = gen_pyspec(rng)
+        q = rng.random()
+        if q < 0.08 * rare and sp["t"] in ("int", "dec", "str", "date", "datetime", "time", "td"):
+            sp["sub"] = "enum" if (sp["t"] == "int" and rng.random() < 0.5) else True
+            if sp["sub"] == "enum":
+                sp["v"] = str(rng.choice([1, 2, 7]))
+        elif q < 0.18 * rare and sp["t"] not in ("float", "bytes", "str"):
+            # Literal(value, datatype=…): the datatype-specific rules and the derived datatypes
+            fams = {"int": list(INT_BOUNDS) + ["decimal"], "dec": ["decimal"], "bool": ["boolean"], "date": ["date", "gYear", "gYearMonth"],
+                    "datetime": ["dateTime"], "time": ["time"], "td": DURS, "dur": DURS}[sp["t"]]
+            sp["dt"] = rng.choice(fams)
+            if sp["t"] == "int" and rng.random() < 0.7:
+                lo, hi = INT_BOUNDS.get(sp["dt"], (None, None))
+                v = int(sp["v"])
+                if lo is not None and v < lo or hi is not None and v > hi:
+                    sp["v"] = str(rng.choice([x for x in (lo, hi, 0 if (lo or 0) <= 0 <= (hi if hi is not None else 0) else None) if x is not None]))
+            if sp["t"] in ("td", "dur") and sp["dt"] == "yearMonthDuration" and rng.random() < 0.7:
+                sp["us"] = "0"
+            if rng.random() < 0.3:
+                sp["dtstr"] = True
+        elif q < 0.21 * rare and sp["t"] == "str":
+            sp["lang"] = rng.choice(["en", "de-CH", "EN", "x-a1", "", "e n", "1a", "en-"])
+        return {"kind": "py", "v": sp}
+    if r < 0.835:
+        return {"kind": "xml", "s": rng.choice(_XML_OK + _XML_OK + _XML_BAD)}
+    if r < 0.84:
+        return {"kind": "bind", "specific": rng.random() < 0.5, "n": rng.randint(-50, 50),
+                "lex": rng.choice(["12", "0012", "+5", "-0", "x", "", "1.5", str(rng.randint(-10 ** 6, 10 ** 6))])}
     if r < 0.9:
         return gen_relit(rng)
     if r < 0.95:
@@ -1339,6 +1650,9 @@ def gen_case(rng, tier, i):
         b = _lit_for_eq(rng, fam)
     else:
         b = _lit_for_eq(rng, rng.choice(["numeric", "string", "boolean", "duration", "date"]))
+    for side in (a, b):
+        if "cps" in side and side.get("dt") and rng.random() < 0.1:
+            side["dtstr"] = True
     return {"kind": "eq", "a": a, "b": b}
 
 
